@@ -71,7 +71,6 @@ var nativeFuncs = map[string]interface{}{
 	"unicode.ToUpper":                     unicode.ToUpper,
 	"unicode.IsPrint":                     unicode.IsPrint,
 	"unicode/utf8.RuneLen":                utf8.RuneLen,
-	"unicode/utf8.ValidString":            utf8.ValidString,
 	"unicode/utf8.RuneCountInString":      utf8.RuneCountInString,
 	"unicode/utf8.DecodeLastRuneInString": utf8.DecodeLastRuneInString,
 	"unicode/utf8.AppendRune":             utf8.AppendRune,
